@@ -389,7 +389,8 @@ def _setup(ctx, desc, ids):
             ctx.violation("uninitialised.peek_pop_pointer", "peek/pop/pointer on uninitialised storage", desc)
     for _ in range(n):
         x = ids.obs()
-        rt.push(_to_t(x, desc["dtype"]), inplace=False)
+        # the very first mutations of constructor-supplied storage are in place for every other case
+        rt.push(_to_t(x, desc["dtype"]), inplace=bool(desc.get("seed", desc["N"] + desc.get("ptr", 0)) % 2))
         model.push(x)
     if desc["storage"] == "none":
         if rt.value.dtype != storage_dtype:
